@@ -2186,7 +2186,39 @@ def rule_msg(repo):
     return r
 
 
-RULES = [rule_template, rule_watch, rule_once, rule_cover, rule_siblings, rule_acyclic, rule_metaname, rule_msg]
+# ---------------------------------------------------------------------------
+# dependency rules: what a cycle is (the edges) and what "changed" means (the snapshot) are decided elsewhere; the SCC
+# machinery only reaches a fixed point when both are right, so their rules are run here as necessary conditions
+def rule_edges_funcs(repo):
+    """an SCC only forms around a signal whose reads/writes reach the block graph: accesses made inside (nested) @s.func
+    helpers are folded into every calling block -- shared with C02 (R-C02-funcfold)"""
+    from rules.c02 import rule_funcfold
+    return rule_funcfold(repo)
+
+
+def rule_edges_overlap(repo):
+    """overlapping slices of one signal are recognised as the same storage (containment included), otherwise the feedback
+    edge of a loop through x[a:b] / x[c:d] is missing and the blocks run once -- shared with C02 (R-overlap)"""
+    from rules.c02 import rule_overlap
+    return rule_overlap(repo)
+
+
+def rule_edges_pairing(repo):
+    """every (writer, reader) pair on the same / ancestor / overlapping object becomes an edge and records the inducing
+    object under constraint_objs (the variables the SCC block watches) -- shared with C02 (R-C02-pairing)"""
+    from rules.c02 import rule_pairing
+    return rule_pairing(repo)
+
+
+def rule_snapshot_clone(repo):
+    """the per-iteration snapshot `t = x.clone()` must not alias the live value: generated bitstruct clone()/__deepcopy__
+    copy every leaf including Bits elements of list fields -- shared with C06 (R-C06-traversal)"""
+    from rules.c06 import rule_traversal
+    return rule_traversal(repo)
+
+
+RULES = [rule_template, rule_watch, rule_once, rule_cover, rule_siblings, rule_acyclic, rule_metaname, rule_msg,
+         rule_edges_funcs, rule_edges_overlap, rule_edges_pairing, rule_snapshot_clone]
 
 EXPLANATION = (
     "Static analysis of the two cyclic-capable schedulers (DynamicSchedulePass.schedule_intra_cycle, "
